@@ -151,7 +151,7 @@ int main(int argc, char **argv) {
         // every byte value in every position of a 3-byte group with four backgrounds
         for (int pos = 0; pos < 3; ++pos) for (int v = 0; v < 256; ++v) for (int bg : {0x00, 0xFF, 0xAA, 0x55}) { Bytes b(3, (char)bg); b[pos] = (char)v; op_enc(b); }
         // every length across the small-string limit of the results
-        for (int n = 0; n <= 50; ++n) { Bytes b; for (int i = 0; i < n; ++i) b.push_back((char)(i * 37 + n)); op_enc(b); }
+        for (int n = 0; n <= 200; ++n) { Bytes b; for (int i = 0; i < n; ++i) b.push_back((char)(i * 37 + n)); op_enc(b); }
         for (size_t n : {(size_t)1000, (size_t)4097, (size_t)65535, (size_t)65536, (size_t)131069, (size_t)131070, (size_t)131071, (size_t)131072, (size_t)131073,
                          (size_t)262142, (size_t)262143, (size_t)262144, (size_t)393214, (size_t)393215, (size_t)393216, (size_t)1048577, (size_t)3000002}) op_encbig(n);
         if (!alpha.empty()) all_seqs(alpha, 0, maxlen, op_enc);
@@ -166,6 +166,24 @@ int main(int argc, char **argv) {
         bool hex = alpha.empty() ? false : (alpha[0] == -1);
         if (hex) alpha.erase(alpha.begin());
         all_seqs(alpha, minlen, maxlen, [&](const Bytes &t) { op_dec(hex, t); });
+    } else if (gen == "decpos") {
+        // longer texts: a VALID text of every length (hex 2..48, base64 4..96 with each padding) with ONE character
+        // replaced by an invalid one at every position - and the valid texts themselves
+        static const char hd[] = "0123456789abcdefABCDEF";
+        for (int n = 2; n <= 48; n += 2) {
+            Bytes t; for (int i = 0; i < n; ++i) t.push_back(hd[(i * 7 + n) % 22]);
+            op_dec(true, t);
+            for (int i = 0; i < n; ++i) for (int bad : std::vector<int>{'g', 'G', ' ', '/', ':', '@', '`', 0x00, 0xFF, 'x'}) { Bytes u = t; u[i] = (char)bad; op_dec(true, u); }
+        }
+        static const char bd[] = "ABCDEFGHIJKLMNOPQRSTUVWXYZabcdefghijklmnopqrstuvwxyz0123456789+/";
+        for (int n = 4; n <= 96; n += 4) for (int pad = 0; pad <= 2; ++pad) {
+            Bytes t; for (int i = 0; i < n; ++i) t.push_back(bd[(i * 11 + n + pad) % 64]);
+            // canonical tail bits are not required by the decoder contract, but keep the text an encoder output
+            if (pad == 1) { t[n - 1] = '='; t[n - 2] = bd[((unsigned char)t[n - 2] % 16) * 4]; }
+            if (pad == 2) { t[n - 1] = '='; t[n - 2] = '='; t[n - 3] = bd[((unsigned char)t[n - 3] % 4) * 16]; }
+            op_dec(false, t);
+            if (pad == 0 || n <= 12 || n >= 84) for (int i = 0; i < n; ++i) for (int bad : std::vector<int>{'-', '_', ' ', '.', 0x00, 0xFF}) { Bytes u = t; u[i] = (char)bad; op_dec(false, u); }
+        }
     } else if (gen == "decrand") {
         static const char b64a[] = "ABCZabcz0189+/=";
         static const char hexa[] = "0123456789abcdefABCDEFgG x";
